@@ -71,6 +71,7 @@ func (t *T0x1210) Parse(jtMsg *jt808.JTMessage) error {
 		return protocol.ErrBodyLengthInconsistency
 	}
 	start := cursor
+	t.T0x1210AlarmItemList = nil // 复用对象时不保留上一次解析的列表
 	for i := 0; i < int(t.AttachCount); i++ {
 		if len(body) < start+1 { // 前一个文件名占满了body 后面没有数据了
 			return protocol.ErrBodyLengthInconsistency
